@@ -614,3 +614,14 @@ Fixpoint run2 (c : cfg) (sa sb : st) (tr : list (bool * label)) : option (st * s
 
 Definition proj (who : bool) (tr : list (bool * label)) : list label :=
   map snd (filter (fun x => Bool.eqb (fst x) who) tr).
+
+(* ------------------------------------------------------------------ *)
+(* No time-dependent transition                                         *)
+(* ------------------------------------------------------------------ *)
+
+(* The LTS has no clock: no label is enabled or disabled by the passing of time,
+   which is how "for any timing of writes" is quantified.  That is the code only
+   if connect / handleConnectRequest leave no read or write deadline armed on the
+   connections of the tunnel ([no_armed_deadline], from the source); an armed
+   write deadline makes the first write after it expires fail. *)
+Definition tunnel_has_timed_transition (no_armed_deadline : bool) : bool := negb no_armed_deadline.
